@@ -299,6 +299,42 @@ theorem path_resolution_history_independent (f : File) (unc : Codec) (hc : Codec
     (exec true f unc (d.resolveP path) (usedFam f unc w h)).1 = (exec true f unc (d.resolveP path) (freshFam w)).1 :=
   (prog_history_independent f unc hc w hw h _ (resolveP_wf d path)).1
 
+/-- the model-only outcome "loop fuel exhausted" of the listing model cannot happen (every entry consumes at least 9
+bytes of the cursor's `size`) … -/
+theorem listing_fuel_suffices (f : File) (unc : Codec) (hc : CodecOK unc) (S : Readers) (hS : ∀ k, Coherent f unc (S k))
+    (d : DirRd) (ref : Nat) : (exec true f unc (d.listP ref) S).1 ≠ .error loopFuelSt := by
+  unfold DirRd.listP
+  rw [exec_bind]
+  obtain ⟨hco, herr⟩ := exec_coherent_err hc (d.getInodeP ref) S hS
+  cases hr : exec true f unc (d.getInodeP ref) S with
+  | mk r S' =>
+    rw [hr] at hco herr
+    cases r with
+    | error e =>
+      simp only
+      intro h
+      cases h
+      exact herr loopFuelSt (by decide) (readInodeP_nofail _ _ _ _ _ loopFuelSt (by decide) (by decide)) rfl
+    | ok ino =>
+      simp only
+      cases hod : d.openDir ino with
+      | error e =>
+        simp only [exec]
+        intro h
+        cases h
+        unfold DirRd.openDir at hod
+        split at hod
+        · cases hod
+        · split at hod
+          · cases hod
+          · cases hod
+      | ok it => exact listGoP_fuel hc d _ it [] S' hco (by omega)
+
+/-- … nor that of the path resolution model (every component consumes at least one byte of the path) -/
+theorem path_fuel_suffices (f : File) (unc : Codec) (hc : CodecOK unc) (S : Readers) (hS : ∀ k, Coherent f unc (S k))
+    (d : DirRd) (path : Bytes) : (exec true f unc (d.resolveP path) S).1 ≠ .error loopFuelSt :=
+  resolveGoP_fuel hc d _ path d.rootRef S hS (by omega)
+
 /-- xattr descriptor: `sqfs_xattr_reader_get_desc` -/
 theorem xattr_desc_history_independent (f : File) (unc : Codec) (hc : CodecOK unc) (w : Nat → Nat × Nat)
     (hw : ∀ k, (w k).2 ≤ NONE) (h : Nat → List Op) (x : XR) (idx : Nat) :
